@@ -153,6 +153,11 @@ def handleSxg (op : String) (args : List String) : Option String :=
     | .ok bs => pure s!"ok {toHex bs}"
     | .error .duplicatedKey => pure "err dup"
     | .error .invalidUtf8 => pure "err utf8"
+  | "sxg.hdrint" => do
+    let (e, _) ← parseExchange args
+    match headerIntegrity sha e with
+    | some bs => pure s!"ok {toHex bs}"
+    | none => pure "err"
   | "sxg.write" => do
     let (e, _) ← parseExchange args
     match write e with
